@@ -45,7 +45,7 @@ func genCase(t *rapid.T, mode string) Case {
 		if rapid.IntRange(0, 30).Draw(t, "shutdownDice") == 0 {
 			cls = 9 // only has an effect in cases that allow shutdown moves
 		}
-		c.Decs = append(c.Decs, Dec{C: cls, I: rapid.IntRange(0, 7).Draw(t, "idx")})
+		c.Decs = append(c.Decs, Dec{C: cls, I: rapid.IntRange(0, 7).Draw(t, "idx"), P: rapid.IntRange(0, 3).Draw(t, "parkReply") == 0})
 	}
 	if mode == "C01" {
 		nf := rapid.SampledFrom([]int{0, 0, 1, 1, 2}).Draw(t, "nfaults")
